@@ -38,7 +38,7 @@ def fn_facts(f):
             if q in TERMQ: nm = 'set_' + TERMQ[q]
             if not nm or nm.startswith('<'): continue
             callees.add(nm)
-            if nm in NOT_ACTIONS or nm.startswith(('is_', 'get_', 'operator')) or nm.endswith(('_v', '_t')): continue
+            if nm in NOT_ACTIONS or nm.startswith(('is_', 'get_', 'operator')) or nm.endswith(('_v', '_t')) or not re.fullmatch(r'[A-Za-z_~]\w*', nm): continue
             base = e['callee'].get('base')
             obj = last_field(base) if base else ''
             if not obj and nm in ('set_value', 'set_error', 'set_done', 'set_next', 'start') and e.get('args') and isinstance(e['args'][0], dict):
